@@ -628,6 +628,7 @@ func runSetOf[T comparable](c Case, o *vk.Obs, d *dom[T]) string {
 		return msg
 	}
 	for i, op := range c.Ops {
+		o.Step() // interleaved execution (vk.Interleave) switches to the other case here
 		r.step = i
 		if msg := r.apply(op); msg != "" {
 			return msg
